@@ -17,7 +17,9 @@ SPEC = {
                    "long comment after a value, long comment line, one long bucket in a one-per-line list); record sets rendered by the harness's own renderer, compared byte for "
                    "byte with the model's render, parsed by the real chartconfig.Parse (40%: 0-6 records, every field "
                    "optional, repeated issue, bucket lists on one line or one per line, random blanks/comments/filler "
-                   "lines/empty records, int64 boundary depths, float bit patterns incl. -0/Inf/NaN, a few deliberately "
+                   "lines/empty records, values / bucket names / comments with a carriage return or another space or control "
+                   "character strictly inside (CR, TAB, VT, FF, NEL, NBSP, U+2028, U+3000, NUL, ESC, DEL, BOM, stray UTF-8 lead bytes), "
+                   "int64 boundary depths, float bit patterns incl. -0/Inf/NaN, a few deliberately "
                    "invalid values and layouts); structured malformed texts (25%: valid renderings mutated by "
                    "catalogue lines covering every error of Parse, duplicated/deleted/swapped lines, byte edits, CRLF); "
                    "random token soup (10%); real generate via a child process of package main built with -tags verif "
